@@ -47,6 +47,8 @@ type Path struct {
 	outs      []string
 	choices   map[string]int64
 	facts     map[*Term]bool
+	ub        map[*Term]*big.Int // upper bounds of Int terms asserted by the path condition (x < c, x <= c)
+	lb        map[*Term]*big.Int // lower bounds (c <= x, c < x and the negated forms)
 }
 
 type nondetRec struct {
@@ -210,6 +212,7 @@ func (in *Interp) noteFact(c *Term, depth int) {
 		return
 	}
 	p.facts[c] = true
+	in.noteBound(c)
 	switch c.op {
 	case OAnd:
 		in.noteFact(c.args[0], depth+1)
@@ -220,6 +223,154 @@ func (in *Interp) noteFact(c *Term, depth int) {
 			in.noteFact(in.tt.Not(o.args[1]), depth+1)
 		}
 	}
+}
+
+// noteBound records upper bounds x < c / x <= c (and the negated forms) of Int terms.
+func (in *Interp) noteBound(c *Term) {
+	set := func(x *Term, hi *big.Int) {
+		p := in.path
+		if p.ub == nil {
+			p.ub = map[*Term]*big.Int{}
+		}
+		if old, ok := p.ub[x]; !ok || hi.Cmp(old) < 0 {
+			p.ub[x] = hi
+		}
+	}
+	neg := false
+	if c.op == ONot {
+		neg, c = true, c.args[0]
+	}
+	if c.op != OILt && c.op != OILe {
+		return
+	}
+	a, b := c.args[0], c.args[1]
+	setLo := func(x *Term, lo *big.Int) {
+		p := in.path
+		if p.lb == nil {
+			p.lb = map[*Term]*big.Int{}
+		}
+		if old, ok := p.lb[x]; !ok || lo.Cmp(old) > 0 {
+			p.lb[x] = lo
+		}
+	}
+	switch {
+	case !neg && c.op == OILt && b.IsConst(): // a < c
+		set(a, new(big.Int).Sub(b.val, bigOne))
+	case !neg && c.op == OILe && b.IsConst(): // a <= c
+		set(a, b.val)
+	case neg && c.op == OILt && a.IsConst(): // !(c < b)  =>  b <= c
+		set(b, a.val)
+	case neg && c.op == OILe && a.IsConst(): // !(c <= b) =>  b < c
+		set(b, new(big.Int).Sub(a.val, bigOne))
+	case !neg && c.op == OILt && a.IsConst(): // c < b
+		setLo(b, new(big.Int).Add(a.val, bigOne))
+	case !neg && c.op == OILe && a.IsConst(): // c <= b
+		setLo(b, a.val)
+	case neg && c.op == OILt && b.IsConst(): // !(a < c)  =>  a >= c
+		setLo(a, b.val)
+	case neg && c.op == OILe && b.IsConst(): // !(a <= c) =>  a > c
+		setLo(a, new(big.Int).Add(b.val, bigOne))
+	}
+}
+
+// intHi / intLo: an upper / lower bound of an Int term under the current path condition (nil = none found).
+func (in *Interp) intHi(t *Term, depth int) *big.Int {
+	if depth > 12 {
+		return nil
+	}
+	var best *big.Int
+	if in.path != nil && in.path.ub != nil {
+		best = in.path.ub[t]
+	}
+	min := func(x *big.Int) {
+		if x != nil && (best == nil || x.Cmp(best) < 0) {
+			best = x
+		}
+	}
+	switch t.op {
+	case OConst:
+		return t.val
+	case OBv2Nat:
+		min(new(big.Int).Sub(pow2(t.args[0].sort.W), bigOne))
+	case OIAdd:
+		if a, b := in.intHi(t.args[0], depth+1), in.intHi(t.args[1], depth+1); a != nil && b != nil {
+			min(new(big.Int).Add(a, b))
+		}
+	case OISub:
+		if a, b := in.intHi(t.args[0], depth+1), in.intLo(t.args[1], depth+1); a != nil && b != nil {
+			min(new(big.Int).Sub(a, b))
+		}
+	case OIMod:
+		if m := t.args[1]; m.IsConst() && m.val.Sign() > 0 {
+			min(new(big.Int).Sub(m.val, bigOne))
+			if lo := in.intLo(t.args[0], depth+1); lo != nil && lo.Sign() >= 0 {
+				min(in.intHi(t.args[0], depth+1))
+			}
+		}
+	case OIte:
+		if a, b := in.intHi(t.args[1], depth+1), in.intHi(t.args[2], depth+1); a != nil && b != nil {
+			if a.Cmp(b) < 0 {
+				a = b
+			}
+			min(a)
+		}
+	}
+	return best
+}
+
+func (in *Interp) intLo(t *Term, depth int) *big.Int {
+	if depth > 12 {
+		return nil
+	}
+	if in.path != nil && in.path.lb != nil {
+		if lo := in.path.lb[t]; lo != nil {
+			if t.op != OBv2Nat || lo.Sign() > 0 {
+				return lo
+			}
+		}
+	}
+	switch t.op {
+	case OConst:
+		return t.val
+	case OBv2Nat:
+		return new(big.Int)
+	case OIAdd:
+		if a, b := in.intLo(t.args[0], depth+1), in.intLo(t.args[1], depth+1); a != nil && b != nil {
+			return new(big.Int).Add(a, b)
+		}
+	case OISub:
+		if a, b := in.intLo(t.args[0], depth+1), in.intHi(t.args[1], depth+1); a != nil && b != nil {
+			return new(big.Int).Sub(a, b)
+		}
+	case OIMod:
+		if m := t.args[1]; m.IsConst() && m.val.Sign() > 0 {
+			return new(big.Int)
+		}
+	case OIte:
+		if a, b := in.intLo(t.args[1], depth+1), in.intLo(t.args[2], depth+1); a != nil && b != nil {
+			if a.Cmp(b) > 0 {
+				a = b
+			}
+			return a
+		}
+	}
+	if nonNeg(t) {
+		return new(big.Int)
+	}
+	return nil
+}
+
+// dropMod: x mod m = x when the path condition bounds x inside [0, m) (values that went through a fixed-width
+// byte encoding and back: balances, ABI words).  Sound on this path only, which is where the term is used.
+func (in *Interp) dropMod(t *Term) *Term {
+	for t.op == OIMod && t.args[1].IsConst() && t.args[1].val.Sign() > 0 {
+		lo, hi := in.intLo(t.args[0], 0), in.intHi(t.args[0], 0)
+		if lo == nil || hi == nil || lo.Sign() < 0 || hi.Cmp(t.args[1].val) >= 0 {
+			break
+		}
+		t = t.args[0]
+	}
+	return t
 }
 
 // knownFact: 1 = c is syntactically implied by the path condition, -1 = its negation is, 0 = unknown.
